@@ -15,7 +15,7 @@ import numpy as np
 from common import canon_idx, ints
 
 OPS = ["fill_depressions(edge)", "fill_depressions(min)", "fill_depressions(idxs_pit)", "get_edge", "from_dem",
-       "fill_depressions(twice)"]
+       "fill_depressions(twice)", "fill_depressions(max_depth>=0)", "fill_depressions(elv_max)", "from_dem(max_depth>=0)"]
 RULE = ("elevation rasters <= 64 cells (quick) / <= 900 (thorough) of dtype int32/float32/float64: small-level "
         "random surfaces (plateaus, ties), bowls and nested bowls, ridged surfaces, 1xN / Nx1 profiles, dyadic and "
         "arbitrary random floats, huge int32, nodata holes/blocks/frames incl. NaN nodata; connectivity 4 and 8; "
@@ -287,9 +287,24 @@ def gen_case(rng, max_cells, max_side):
         idxs_pit = [rng.choice(valid_idx) for _ in range(k)]
         if rng.random() < 0.15:
             outlets = "min"   # restricts the user cells to their lowest
-    return {"op": "fill_depressions", "shape": list(shape), "dtype": dtype, "elevtn": data, "nodata": nodata,
+    desc = {"op": "fill_depressions", "shape": list(shape), "dtype": dtype, "elevtn": data, "nodata": nodata,
             "connectivity": conn, "outlets": outlets, "idxs_pit": idxs_pit,
             "family": f"{fam}/{mfam}/{vfam}"}
+    # optional arguments: elv_max (edge outlets only at/below it) and max_depth >= 0 (pour-point depth limit;
+    # only on value families whose differences are exact in float64 and comparable with max_depth exactly)
+    valid_vals = sorted(vals[i] for i in valid_idx)
+    if rng.random() < 0.18 and (idxs_pit is None or rng.random() < 0.2):
+        u = rng.random()
+        if u < 0.15:
+            desc["elv_max"] = float(valid_vals[0]) - 1.0          # below everything -> ValueError
+        elif u < 0.3:
+            desc["elv_max"] = float(valid_vals[-1])              # no restriction
+        else:
+            desc["elv_max"] = float(rng.choice(valid_vals))        # ties with a cell value (<=)
+    if vfam in ("int", "integral", "dyadic") and rng.random() < 0.3:
+        span = float(valid_vals[-1]) - float(valid_vals[0])
+        desc["max_depth"] = rng.choice([0.0, 0.0, 0.125, 0.5, 1.0, 1.0, 2.0, 3.0, max(0.0, span / 2), span, span + 1.0])
+    return desc
 
 
 # ----------------------------------------------------------------------------------------------
@@ -327,12 +342,35 @@ def run_case(ctx, desc, with_from_dem=False, oracle=True):
     if pits is not None:
         kw["idxs_pit"] = np.array(pits, dtype=np.int64)
     minflag = 1 if desc["outlets"] == "min" else 0
+    if desc.get("max_depth") is not None and desc["max_depth"] >= 0:
+        return run_depth_case(ctx, desc, with_from_dem)
+    elv_max = desc.get("elv_max")
+    elv_max_i = None
+    if elv_max is not None:
+        kw["elv_max"] = elv_max
+        elv_max_i = math.floor(_frac(elv_max) * den)   # elev <= elv_max  <=>  elev*den <= floor(elv_max*den)
+        ctx.count("elv_max")
     before = elev.copy()
     py_fail = []   # failures decided in Python (trivial exact checks)
     try:
         filled, d8 = dem.fill_depressions(elev, **kw)
         filled2, d82 = dem.fill_depressions(filled, **kw)
     except Exception as e:  # every generated input is in the documented domain: must return
+        if elv_max is not None and pits is None and type(e) is ValueError:
+            # documented: ValueError when no edge cell lies at or below elv_max
+            ctx.count("elv_max:ValueError")
+            none_below = not any(elev_i[i] <= elv_max_i for i in edge_cells(valid_l, shape, conn))
+            pf = [] if none_below else [{"kind": "spec", "what": "ValueError although an edge cell lies at or below elv_max"}]
+
+            def judge_err(ans, pf=pf):
+                fs = list(pf)
+                if ans[0].get("__err__") != "ValueError":
+                    fs.append({"kind": "model", "what": "implementation raised ValueError (elv_max), the model did not",
+                               "model": ans[0].get("__err__", "returned")})
+                return fs
+            ctx.add(desc, [("c06_fill", {"nrow": nrow, "ncol": ncol, "conn": conn, "elev": elev_i, "nod": nod_l,
+                                        "min": minflag, "pits": pits, "elv_max": elv_max_i})], judge_err, nontrivial=False)
+            return
         ctx.evaluations += 1
         ctx.fail(desc, "spec", f"fill_depressions raised {type(e).__name__}: {e}")
         return
@@ -400,6 +438,10 @@ def run_case(ctx, desc, with_from_dem=False, oracle=True):
     if oracle and not bad:
         if pits is None:
             seeds = edge_cells(valid_l, shape, conn)
+            if elv_max_i is not None:
+                seeds = [i for i in seeds if elev_i[i] <= elv_max_i]
+                if not seeds:
+                    py_fail.append({"kind": "spec", "what": "no edge cell at or below elv_max but no ValueError"})
         else:
             seeds = sorted(set(pits))
         if minflag and seeds:
@@ -426,12 +468,12 @@ def run_case(ctx, desc, with_from_dem=False, oracle=True):
         edge_impl = None
 
     args = {"nrow": nrow, "ncol": ncol, "conn": conn, "elev": elev_i, "nod": nod_l, "min": minflag,
-            "pits": pits, "impl.f": f_i, "impl.d8": d8_i, "impl.f2": f2_i, "impl.d82": d82_i}
+            "pits": pits, "elv_max": elv_max_i, "impl.f": f_i, "impl.d8": d8_i, "impl.f2": f2_i, "impl.d82": d82_i}
     reqs = [("c06_fill", args)]
     if edge_impl is not None:
         reqs.append(("c06_get_edge", {"nrow": nrow, "ncol": ncol, "conn": conn, "nod": nod_l}))
     fd = None
-    if with_from_dem and conn == 8 and pits is None:
+    if with_from_dem and conn == 8 and pits is None and elv_max is None:
         try:
             flw = pyflwdir.from_dem(elev, nodata=nodata, outlets=desc["outlets"])
             fd = canon_idx(flw.idxs_ds, n)
@@ -502,6 +544,135 @@ def run_case(ctx, desc, with_from_dem=False, oracle=True):
     ctx.add(desc, reqs, judge, nontrivial=nontriv)
 
 
+def run_depth_case(ctx, desc, with_from_dem=False):
+    """max_depth >= 0: exact comparison with the loop-for-loop model (fillModelDepth) + the declarative
+    facts that hold for every depth-limited run (depthOk)"""
+    from pyflwdir import dem
+    import pyflwdir
+
+    shape = tuple(desc["shape"])
+    nrow, ncol = shape
+    n = nrow * ncol
+    conn = desc["connectivity"]
+    nodata = float(desc["nodata"]) if desc["nodata"] is not None else float("nan")
+    elev = build_array(desc)
+    nod = nodata_mask(elev, nodata)
+    nod_l = [bool(x) for x in nod.ravel()]
+    valid_l = [not x for x in nod_l]
+    flat = elev.ravel()
+    md = float(desc["max_depth"])
+    den = scale_of([flat[i].item() for i in range(n) if valid_l[i]])
+    elev_i = [to_scaled(flat[i].item(), den) if valid_l[i] else 0 for i in range(n)]
+    md_i = math.ceil(_frac(md) * den)       # dz >= md  <=>  dz*den >= ceil(md*den) for integral dz*den
+    kw = dict(outlets=desc["outlets"], nodata=nodata, connectivity=conn, max_depth=md)
+    pits = desc.get("idxs_pit")
+    if pits is not None:
+        kw["idxs_pit"] = np.array(pits, dtype=np.int64)
+    minflag = 1 if desc["outlets"] == "min" else 0
+    elv_max = desc.get("elv_max")
+    elv_max_i = None
+    if elv_max is not None:
+        kw["elv_max"] = elv_max
+        elv_max_i = math.floor(_frac(elv_max) * den)
+    ctx.count("max_depth>=0")
+    ctx.count("max_depth:%s" % ("0" if md == 0 else "pos"))
+    before = elev.copy()
+    py_fail = []
+    base = {"nrow": nrow, "ncol": ncol, "conn": conn, "elev": elev_i, "nod": nod_l, "min": minflag,
+            "pits": pits, "elv_max": elv_max_i, "max_depth": md_i}
+    try:
+        filled, d8 = dem.fill_depressions(elev, **kw)
+    except Exception as e:
+        if elv_max is not None and pits is None and type(e) is ValueError:
+            def judge_err(ans):
+                if ans[0].get("__err__") != "ValueError":
+                    return [{"kind": "model", "what": "implementation raised ValueError (elv_max), the model did not"}]
+                return []
+            ctx.add(desc, [("c06_fill", base)], judge_err, nontrivial=False)
+            return
+        ctx.evaluations += 1
+        ctx.fail(desc, "spec", f"fill_depressions(max_depth={md}) raised {type(e).__name__}: {e}")
+        return
+    if not same_bits(before, elev):
+        py_fail.append({"kind": "spec", "what": "fill_depressions modified its input raster"})
+    ff, dd = filled.ravel(), d8.ravel()
+    f_i = []
+    for i in range(n):
+        if nod_l[i]:
+            f_i.append(0 if same_bits(ff[i], flat[i]) else 1)
+        else:
+            sc = to_scaled(ff[i].item(), den)
+            if sc is None:
+                py_fail.append({"kind": "spec", "what": f"filled elevation at cell {i} is not an input elevation"})
+                sc = -1
+            f_i.append(sc)
+    d8_i = ints(dd)
+    touched = [i for i in range(n) if nod_l[i] and (not same_bits(ff[i], flat[i]) or int(dd[i]) != 247)]
+    if touched:
+        py_fail.append({"kind": "spec", "what": f"max_depth={md}: nodata cells {touched[:5]} touched or not coded 247"})
+    # did the limit matter?  (compare with the unlimited fill of the implementation)
+    kw0 = dict(kw)
+    kw0["max_depth"] = -1.0
+    try:
+        filled0, d80 = dem.fill_depressions(elev, **kw0)
+        differs = not (same_bits(filled0, filled) and same_bits(d80, d8))
+    except Exception:
+        differs = False
+    nontriv = sum(valid_l) >= 2 and differs
+    if differs:
+        ctx.count("feature:depth-limit-active")
+    reqs = [("c06_fill", dict(base, **{"impl.f": f_i, "impl.d8": d8_i}))]
+    fd = None
+    if with_from_dem and conn == 8 and pits is None and elv_max is None and n >= 2 and any(valid_l):
+        try:
+            flw = pyflwdir.from_dem(elev, nodata=nodata, outlets=desc["outlets"], max_depth=md)
+            fd = canon_idx(flw.idxs_ds, n)
+            reqs.append(("c06_from_dem", {"nrow": nrow, "ncol": ncol, "elev": elev_i, "nod": nod_l, "min": minflag,
+                                          "max_depth": md_i, "impl.ds": fd, "impl.f": f_i, "impl.d8": d8_i}))
+            ctx.count("op:from_dem(max_depth)")
+        except Exception as e:
+            py_fail.append({"kind": "spec", "what": f"from_dem(max_depth={md}) raised {type(e).__name__}: {e}"})
+
+    def judge(ans):
+        fs = list(py_fail)
+        a = ans[0]
+        if "__err__" in a:
+            return fs + [{"kind": "model", "what": "driver error " + a["__err__"]}]
+        if a.get("spec.depth_impl") != [1]:
+            fs.append({"kind": "spec", "what": f"max_depth={md}: nodata touched, a cell lowered, or a cell raised by max_depth or more",
+                       "impl.f": f_i, "impl.d8": d8_i, "scale": den})
+        if a["spec.depth_model"] != [1]:
+            fs.append({"kind": "model", "what": "model output violates the depth-limited invariants"})
+        if f_i != a["model.f"]:
+            fs.append({"kind": "model", "what": f"max_depth={md}: filled elevation: implementation != Lean model",
+                       "impl": f_i, "model": a["model.f"], "scale": den})
+        if d8_i != a["model.d8"]:
+            fs.append({"kind": "model", "what": f"max_depth={md}: d8: implementation != Lean model", "impl": d8_i, "model": a["model.d8"]})
+        if a.get("model.same_as_unlimited", [1]) != [1]:
+            fs.append({"kind": "model", "what": "no too-deep event but the model's depth-limited run differs from its unlimited run"})
+        ev, evmax = a["model.ev"][0], a["model.evmax"][0]
+        ctx.count("too-deep-events", ev)
+        if ev:
+            ctx.count("feature:too-deep-event-case")
+        if evmax > 1:
+            # the unproved lemma behind unconditional termination: each cell is too deep at most once
+            ctx.count("CONJECTURE-FALSIFIED:cell too deep twice")
+            fs.append({"kind": "model", "what": f"a cell had {evmax} too-deep events (termination lemma 'at most one per cell' is false)"})
+        if fd is not None:
+            e = ans[1]
+            if "__err__" in e:
+                fs.append({"kind": "model", "what": "driver error " + e["__err__"]})
+            else:
+                if fd != e["spec.ds"]:
+                    fs.append({"kind": "spec", "what": "from_dem(max_depth) network is not the decoding of the fill_depressions directions",
+                               "impl.ds": fd, "decoded": e["spec.ds"]})
+                if fd != e["model.ds"]:
+                    fs.append({"kind": "model", "what": "from_dem(max_depth): implementation != Lean model", "impl": fd, "model": e["model.ds"]})
+        return fs
+
+    ctx.add(desc, reqs, judge, nontrivial=nontriv)
+
+
 def classify(failure):
     return None
 
@@ -542,6 +713,31 @@ def corner_cases():
         # float64 / int values that a float32 heap key would truncate
         mk((1, 4), "float64", [16777217.0, 16777216.0, 16777218.0, 16777215.0], conn=conn, outlets="min")
         mk((1, 4), "int32", [16777217, 16777216, 16777218, 16777219], conn=conn, pits=[3])
+    # regression (defect fixed in /repo 463c4a4): max_depth >= 0 re-opened the nodata neighbour of a too-deep
+    # cell; the nodata cell got a direction and entered the heap (with NaN nodata: a NaN key)
+    reg = [0, 5, 5, 5, 5, 5, -9999.0, 1, 5, 5, 5, 5, 5, 5, 5]
+    regn = [0, 5, 5, 5, 5, 5, nan, 1, 5, 5, 5, 5, 5, 5, 5]
+    for md in (0.0, 1.0, 2.0, 10.0):
+        for conn in (4, 8):
+            mk((3, 5), "float32", reg, conn=conn, outlets="min")
+            out[-1]["max_depth"] = md
+            mk((3, 5), "float64", regn, nodata=nan, conn=conn, outlets="min")
+            out[-1]["max_depth"] = md
+            # flat surface with max_depth = 0 (looped forever before /repo c1d4b0c)
+            mk((3, 4), "int32", [2] * 12, conn=conn, outlets="min")
+            out[-1]["max_depth"] = md
+            # border cell too deep (out-of-raster write before /repo 42fe78d)
+            mk((2, 3), "float32", [9, 0, 9, 9, 9, 9], conn=conn, pits=[0])
+            out[-1]["max_depth"] = md
+            # nested depressions: inner deeper than max_depth, outer shallower
+            mk((1, 9), "float32", [0, 5, 1, 3, 0, 3, 1, 7, 2], conn=conn, outlets="min")
+            out[-1]["max_depth"] = md
+    # elv_max: below all edge cells (ValueError), between, above
+    for em in (-1.0, 3.0, 4.0, 100.0):
+        mk((3, 3), "float32", [5, 4, 5, 3, 1, 5, 5, 5, 5])
+        out[-1]["elv_max"] = em
+        mk((3, 3), "int32", [5, 4, 5, 3, 1, 5, 5, 5, 5], outlets="min")
+        out[-1]["elv_max"] = em
     # all nodata with edge outlets: nothing to do
     mk((2, 2), "float32", [-9999.0] * 4)
     mk((1, 1), "float32", [3.0])
@@ -574,6 +770,29 @@ def run(ctx):
         if len(ctx.cases) >= 200:
             ctx.flush()
     ctx.flush()
+    # depth-limited fills with mixed shallow / deep depressions: exercises fill (0 < dz < max_depth), too deep
+    # (dz >= max_depth), re-opening of filled neighbours and their reset when visited again
+    for k in range((220 if quick else 4000) * ctx.escalate):
+        shape = gen_shape(rng, 48 if quick else 100, 8 if quick else 10)
+        n = shape[0] * shape[1]
+        top = rng.choice([3, 4, 6, 9])
+        z = [rng.randint(0, top) for _ in range(n)]
+        mask = [rng.random() < 0.08 for _ in range(n)] if rng.random() < 0.3 else [False] * n
+        if all(mask):
+            mask[0] = False
+        dtype = rng.choice(DTYPES)
+        nodata = -9999.0
+        data = [(nodata if mask[i] else (z[i] if dtype == "int32" else float(z[i]))) for i in range(n)]
+        valid_idx = [i for i in range(n) if not mask[i]]
+        pits = None if rng.random() < 0.5 else [rng.choice(valid_idx) for _ in range(rng.randint(1, 2))]
+        desc = {"op": "fill_depressions", "shape": list(shape), "dtype": dtype, "elevtn": data, "nodata": nodata,
+                "connectivity": rng.choice([4, 8]), "outlets": "min" if pits is None or rng.random() < 0.2 else "edge",
+                "idxs_pit": pits, "family": "depthmix/%s/integral" % ("holes" if any(mask) else "none"),
+                "max_depth": float(rng.choice([1, 2, 2, 3, 3, 4]))}
+        run_case(ctx, desc, with_from_dem=True, oracle=False)
+        if len(ctx.cases) >= 200:
+            ctx.flush()
+    ctx.flush()
     # tiny universes: 3x3 over 3 levels, 1-D profiles of length <= 7 over 4 levels
     def tiny(shape, levels, conn, outlets, pits, dtype):
         return {"op": "fill_depressions", "shape": list(shape), "dtype": dtype, "elevtn": list(levels), "nodata": -9999.0,
@@ -590,8 +809,10 @@ def run(ctx):
                 shape = (1, ln) if rng.random() < 0.5 else (ln, 1)
             mode = rng.choice(["min", "user"])
             pits = [rng.randrange(len(lv))] if mode == "user" else None
-            run_case(ctx, tiny(shape, lv, rng.choice([4, 8]), "min" if mode == "min" else "edge", pits,
-                               rng.choice(DTYPES)), oracle=True)
+            tc = tiny(shape, lv, rng.choice([4, 8]), "min" if mode == "min" else "edge", pits, rng.choice(DTYPES))
+            if rng.random() < 0.4:
+                tc["max_depth"] = float(rng.choice([0, 1, 1, 2]))
+            run_case(ctx, tc, oracle=True)
         ctx.count("tiny-universe-sampled", 120)
     else:
         cnt = 0
@@ -602,13 +823,20 @@ def run(ctx):
             pit = sum(lv) % 9
             run_case(ctx, tiny((3, 3), lv, 8 if sum(lv) % 2 else 4, "edge", [pit], "int32"), oracle=False)
             cnt += 1
+            dcase = tiny((3, 3), lv, 4 if sum(lv) % 2 else 8, "edge", [(pit * 5 + 1) % 9], "float32")
+            dcase["max_depth"] = float(sum(lv[::2]) % 3)
+            run_case(ctx, dcase, oracle=False)
+            cnt += 1
             if len(ctx.cases) >= 400:
                 ctx.flush()
         for ln in range(2, 8):
             for lv in itertools.product(range(4), repeat=ln):
                 run_case(ctx, tiny((1, ln), lv, 8, "min", None, "float64"), oracle=False)
                 run_case(ctx, tiny((ln, 1), lv, 4, "edge", [sum(lv) % ln], "float32"), oracle=False)
-                cnt += 2
+                dcase = tiny((1, ln), lv, 8, "min", None, "int32")
+                dcase["max_depth"] = float(1 + sum(lv) % 2)
+                run_case(ctx, dcase, oracle=False)
+                cnt += 3
                 if len(ctx.cases) >= 400:
                     ctx.flush()
         ctx.count("tiny-universe-exhaustive", cnt)
